@@ -137,6 +137,15 @@ class C13(SimCheck):
             cfg["duration"] = r.choice([2048, 4096])
         scn["x"] = r.randrange(cfg["nNodes"])
         scn["xProfile"] = dict(X_PROFILE)
+        # requests made before the start: x stays silent (no messages) there too
+        rows = []
+        for row in scn.get("prestart", []):
+            if row["n"] == scn["x"]:
+                row = dict(row, reqs=[q for q in row["reqs"] if q[0] not in ("send", "broadcast")])
+            if row["reqs"]:
+                rows.append(row)
+        if "prestart" in scn:
+            scn["prestart"] = rows
         return scn
 
     def generate(self, seed, tier):
@@ -159,6 +168,8 @@ class C13(SimCheck):
             return hit
         x, seed = case["x"], case.get("seed", 0)
         a = copy.deepcopy(case)
+        if "prestart" in a:
+            a["prestart"] = [row for row in a["prestart"] if row["n"] != x]
         if case.get("frozen"):
             beh_a = None
         else:
@@ -184,6 +195,8 @@ class C13(SimCheck):
         return primary
 
     def model_input(self, case, impl):
+        if case.get("role", "A") == "A" and "prestart" in case:
+            case = dict(case, prestart=[row for row in case["prestart"] if row["n"] != case["x"]])
         return simimpl.to_driver(case, impl)
 
     # -- correspondence: each run against its model run, on the projection ---------------------
